@@ -37,6 +37,14 @@ CHECKS = {
             "every negotiation call position of a dry run is re-run with a veto there (enumerated).",
             "Map-based bindings only (struct bindings share the call path after lookup). Ordering asserted only on acyclic After∪Require graphs.",
             "property-based testing (rapid) with a handler-call recorder; veto positions enumerated from a dry run", "DESIGN.md §5 C05"),
+    "C07": ("exploration",
+            "Property-based exploration of schemas rich in Auto states with vetoes restricted to the Auto states' own Enter/self/state-state "
+            "handlers; the traced transition sequence is checked: exactly the inactive unblocked Auto states are called right after every "
+            "accepted state-changing non-health transition, never after an auto/no-op/health one, and inside the auto mutation every called "
+            "state ends up active unless its own handler vetoed it or relations reject it.",
+            "Relation rejection is read permissively (any participating state Removing the state or one of its transitive Requires). "
+            "Handlers do not mutate in this check.",
+            "property-based testing (rapid), invariant over the traced transition sequence", "DESIGN.md §5 C07"),
 }
 
 NOT_YET = "check not built yet in this session (planned, see DESIGN.md §9)"
